@@ -31,8 +31,24 @@ def gen_cases(chk):
         add("zero_tiny", "encdec", a)
     # 3. random in-range doubles
     for _ in range(1500 if quick else 40000):
-        e = rng.randrange(-256 + 1023, 252 + 1023)
+        e = rng.randrange(-260 + 1023, 252 + 1023)      # the whole normalised range [16^-65, 16^63)
         add("random_inrange", "encdec", (rng.getrandbits(1) << 63) | (e << 52) | rng.getrandbits(52))
+    # 3b. the lowest hex decade [16^-65, 16^-64) = [2^-260, 2^-256): exponent byte 0x00 with a normalised mantissa
+    #     (in the domain of C15_decode_encode since 2026-10-02); named doubles, edge mantissas, random
+    for a0 in (f2b(1e-78), f2b(-1e-78), f2b(6e-79), f2b(-6e-79), f2b(2.0 ** -260), f2b(-(2.0 ** -260)), f2b(8.6e-78), f2b(5.4e-79)):
+        add("lowest_decade", "encdec", a0)
+    for e in range(-260, -256):
+        for fr in (0, 1, 2, (1 << 52) - 1, (1 << 52) - 2, 1 << 51, (1 << 51) - 1, (1 << 51) + 1):
+            add("lowest_decade", "encdec", ((e + 1023) << 52) | fr)
+            add("lowest_decade", "encdec", (1 << 63) | ((e + 1023) << 52) | fr)
+    for _ in range(300 if quick else 8000):
+        e = rng.randrange(-260 + 1023, -256 + 1023)
+        add("lowest_decade", "encdec", (rng.getrandbits(1) << 63) | (e << 52) | rng.getrandbits(52))
+    #     and the normalised words with exponent byte 0 (decode, re-encode must reproduce when <= 53 bits)
+    for _ in range(200 if quick else 5000):
+        k = rng.choice([53, 54, 55, 56])
+        M = (rng.getrandbits(53) | (1 << 52)) << (k - 53)
+        add("dec_exp0_sig53", "decenc", (rng.getrandbits(1) << 63) | M)
     # 4. decode: one- and two-bit mantissa patterns x exponents (sampled in quick, exhaustive in thorough)
     pats = [(1 << i) | (1 << j) for i in range(56) for j in range(i + 1)]
     exps = list(range(128))
